@@ -344,6 +344,9 @@ class Effects:
                 for e in edges_by_site.get(id(n), []):
                     if isinstance(e.target, Func) and e.kind in ("setter", "getter") and not e.weak:
                         self._import(s, e.target, e.recv_cls if e.kind else None, {e.target.params[0] if e.target.params else "self": self._roots(n.value, f, env)}, site(n), f, n, env, e)
+                    # a bound method taken as a value and called through a local / a table: its effects on the receiver
+                    if isinstance(e.target, Func) and e.kind == "call" and not e.weak and e.target.is_bound and e.target.params:
+                        self._import(s, e.target, e.recv_cls, {e.target.params[0]: self._roots(n.value, f, env)}, site(n), f, n, env, e)
             if isinstance(n, ast.Call):
                 fn = n.func
                 # in-place container mutation
